@@ -32,6 +32,9 @@ impl FileExt for std::fs::File {
     fn read_at(&self, chunk_size: usize, offset: u64) -> io::Result<Vec<u8>> {
         use std::os::unix::io::AsRawFd;
 
+        #[cfg(feature = "verif-hooks")]
+        let chunk_size = crate::verif::before_read(self, chunk_size, offset)?;
+
         let mut chunk = Vec::with_capacity(chunk_size);
         let offset = libc::off_t::try_from(offset).map_err(|_| {
             std::io::Error::new(std::io::ErrorKind::InvalidInput, "offset too large")
